@@ -3,6 +3,7 @@ package mon
 import (
 	"fmt"
 	"reflect"
+	"strings"
 	"time"
 )
 
@@ -318,4 +319,61 @@ func scribble(v reflect.Value, seen map[uintptr]bool, depth int) {
 			v.SetString("scribbled")
 		}
 	}
+}
+
+// ResizeCodes changes the length of every 3-byte []byte field whose name marks it as a language / country code (reachable from v) to
+// n bytes, and returns how many fields were changed. It produces values at the edge of the write contract (a code that is not 3
+// bytes long, as the demuxer itself returns for some real-world streams).
+func ResizeCodes(v any, n int) int {
+	return resizeCodes(reflect.ValueOf(v), n, map[uintptr]bool{}, 0)
+}
+
+func resizeCodes(v reflect.Value, n int, seen map[uintptr]bool, depth int) int {
+	if depth > 40 {
+		return 0
+	}
+	c := 0
+	switch v.Kind() {
+	case reflect.Ptr:
+		if v.IsNil() || seen[v.Pointer()] {
+			return 0
+		}
+		seen[v.Pointer()] = true
+		return resizeCodes(v.Elem(), n, seen, depth+1)
+	case reflect.Interface:
+		if !v.IsNil() {
+			return resizeCodes(v.Elem(), n, seen, depth+1)
+		}
+	case reflect.Struct:
+		if v.Type() == timeType {
+			return 0
+		}
+		for i := 0; i < v.NumField(); i++ {
+			f := v.Field(i)
+			sf := v.Type().Field(i)
+			if sf.PkgPath != "" {
+				continue
+			}
+			name := sf.Name
+			if f.Kind() == reflect.Slice && f.Type().Elem().Kind() == reflect.Uint8 && f.Len() == 3 && f.CanSet() &&
+				(strings.Contains(name, "Language") || strings.Contains(name, "CountryCode")) {
+				nb := make([]byte, n)
+				for k := range nb {
+					nb[k] = byte('a' + k)
+				}
+				f.SetBytes(nb)
+				c++
+				continue
+			}
+			c += resizeCodes(f, n, seen, depth+1)
+		}
+	case reflect.Slice, reflect.Array:
+		if v.Kind() == reflect.Slice && v.Type().Elem().Kind() == reflect.Uint8 {
+			return 0
+		}
+		for i := 0; i < v.Len(); i++ {
+			c += resizeCodes(v.Index(i), n, seen, depth+1)
+		}
+	}
+	return c
 }
